@@ -8,6 +8,7 @@ directive lines starting with `//@`:
   //@   ret <name>
   //@   sig                (following non-directive lines = requires/ensures/decreases text)
   //@   loop <n> [iter=<name>]
+  //@   loop_start <n> / loop_end <n>   (text inserted as first / last statements of loop n's body)
   //@   closure <n> [params=<text up to `ret=` or end>] [ret=<text>]
   //@   before <anchor text>      /  //@ after <anchor text>   (+ following lines = inserted text)
   //@   rewrite <old> ==> <new>
@@ -86,6 +87,8 @@ def build(template_path, out_path, canary=False, repo=None, mutate=None):
                         elif op == "loop":
                             mm = re.match(r"(\d+)(?:\s+iter=(\w+))?$", arg)
                             cur = {"op": "loop", "n": int(mm.group(1)), "iter": mm.group(2), "text": ""}
+                        elif op in ("loop_start", "loop_end"):
+                            cur = {"op": op, "n": int(arg), "text": ""}
                         elif op == "closure":
                             mm = re.match(r"(\d+)(?:\s+params=(.*?))?(?:\s+ret=(.*))?$", arg)
                             cur = {"op": "closure", "n": int(mm.group(1)), "params": mm.group(2),
